@@ -8,11 +8,16 @@ set -u
 R=${1:-/repo}; G=${2:-*}
 export GOFLAGS=-mod=mod GOPROXY=off GOSUMDB=off GOTOOLCHAIN=local
 [ "$R" != /repo ] && export VERIF_REPO=$R
+# Every changed tree leaves its own plain and race builds in the Go build
+# cache (hundreds of MB per change): the regression uses a cache of its own
+# and empties it every 25 changes.
+export GOCACHE=${REGRESS_GOCACHE:-/root/.cache/go-build-regress}
 cd "$(dirname "$0")/.."
 if [ -n "$(git -C "$R" status --porcelain)" ]; then echo "$R is not clean; refusing"; exit 2; fi
-ok=0; bad=0
+ok=0; bad=0; seen=0
 for d in seeded/$G/; do
   name=$(basename "$d")
+  seen=$((seen+1)); [ $((seen % 25)) -eq 0 ] && go clean -cache
   checks=$(grep -oE '^check \w+: exit 1' "$d/confirmed.txt" 2>/dev/null | awk '{print $2}' | tr -d ':' | sort -u | tr '\n' ' ')
   [ -z "$checks" ] && { echo "$name: no catching check on record"; bad=$((bad+1)); continue; }
   if ! git -C "$R" apply "$PWD/$d/patch.diff" 2>/dev/null; then echo "$name: PATCH no longer applies"; bad=$((bad+1)); continue; fi
@@ -25,3 +30,4 @@ for d in seeded/$G/; do
   if [ -n "$caught" ]; then ok=$((ok+1)); echo "$name: caught by$caught (recorded: $checks)"; else bad=$((bad+1)); echo "$name: MISSED (recorded: $checks)"; fi
 done
 echo "regress: $ok caught, $bad need attention"
+go clean -cache
